@@ -135,23 +135,74 @@ def run(ctx, F):
     # ---------------------------------------------------------------- (iv) pseudo :not reversal
     ps_ = tree.one_method("css::selectors::pseudo::Pseudo", "is_superselector")
     oname = [p["pat"]["n"] for p in ps_["sig"]["params"] if p.get("pat") and p["pat"].get("n")][0]
-    rev = fwd = 0
+    # local aliases `let x = &self.arg;` / `let y = &b.arg;`
+    alias = {}
+
+    def side(x):
+        """'self' / 'other' when x is (a reference to / an alias of) self.arg / <other>.arg, else None"""
+        x = A.strip(x)
+        while isinstance(x, dict) and x.get("e") == "ref":
+            x = A.strip(x["x"])
+        if not isinstance(x, dict):
+            return None
+        if x.get("e") == "field" and x.get("f") == "arg":
+            base = A.strip(x["x"])
+            if base.get("e") == "path" and base.get("p") == "self":
+                return "self"
+            if base.get("e") == "path" and base.get("p") == oname:
+                return "other"
+        if x.get("e") == "path" and x.get("p") in alias:
+            return alias[x["p"]]
+        return None
+
+    def stmts_in(n):
+        if isinstance(n, list):
+            for x in n:
+                yield from stmts_in(x)
+        elif isinstance(n, dict):
+            if n.get("s") == "let":
+                yield n
+            for v in n.values():
+                if isinstance(v, (dict, list)):
+                    yield from stmts_in(v)
+
+    for st_ in stmts_in(ps_["body"]):
+        if st_.get("init") is not None and st_["pat"].get("p") == "bind":
+            sd = side(st_["init"])
+            if sd:
+                alias[st_["pat"]["n"]] = sd
+
+    def direction_counts(n):
+        f = r = 0
+        for c in A.walk(n):
+            if c.get("e") == "mcall" and c["m"] == "is_superselector" and len(c["args"]) == 1:
+                a_, b_ = side(c["recv"]), side(c["args"][0])
+                if (a_, b_) == ("self", "other"):
+                    f += 1
+                elif (a_, b_) == ("other", "self"):
+                    r += 1
+        return f, r
+
+    # the `:not` arm: then-branch of an `if` whose condition names "not", or a match arm whose pattern does
+    not_arms = []
+    for n in A.walk(ps_["body"]):
+        if n.get("e") == "if" and '"not"' in A.show(n["cond"]):
+            not_arms.append(n["then"])
+        elif n.get("e") == "match":
+            for arm in n["arms"]:
+                if '"not"' in A.showpat(arm["pat"]) or (arm.get("guard") is not None and '"not"' in A.show(arm["guard"])):
+                    not_arms.append(arm["body"])
+    fwd_all, rev_all = direction_counts(ps_["body"])
     not_rev = None
-    for n in A.walk(ps_["body"]):
-        if n.get("e") == "if" and "name_in" in A.show(n["cond"]) and '"not"' in A.show(n["cond"]):
-            t = A.show(unblock(n["then"])).replace(" ", "")
-            not_rev = t.startswith(f"{oname}.arg.is_superselector(&self.arg") or t.startswith(f"{oname}.arg.is_superselector(self.arg")
-    for n in A.walk(ps_["body"]):
-        if n.get("e") == "mcall" and n["m"] == "is_superselector":
-            t = A.show(n).replace(" ", "")
-            if t.startswith("self.arg.is_superselector("):
-                fwd += 1
-            elif t.startswith(f"{oname}.arg.is_superselector("):
-                rev += 1
-    if not_rev and rev == 1 and fwd >= 1:
+    fwd_not = rev_not = 0
+    if len(not_arms) == 1:
+        fwd_not, rev_not = direction_counts(not_arms[0])
+        not_rev = rev_not == 1 and fwd_not == 0
+    fwd, rev = fwd_all - fwd_not, rev_all - rev_not
+    if not_rev and rev == 0 and fwd >= 1:
         ctx.ok("F5-pseudo-direction", "Pseudo::is_superselector: :not reversed, others forward", None)
     else:
-        ctx.fail("F5-pseudo-direction", "Pseudo::is_superselector: :not reversed, others forward", f"argument comparisons: {fwd} forward, {rev} reversed, `:not` arm reversed: {not_rev}; `:not(a)` covers `:not(b)` exactly when b covers a, every other pseudo compares arguments forward", where=ps_["path"])
+        ctx.fail("F5-pseudo-direction", "Pseudo::is_superselector: :not reversed, others forward", f"argument comparisons outside the `:not` arm: {fwd} forward, {rev} reversed; `:not` arm(s) found: {len(not_arms)}, reversed there: {not_rev}; `:not(a)` covers `:not(b)` exactly when b covers a, every other pseudo compares arguments forward", where=ps_["path"])
 
     # ---------------------------------------------------------------- (v) pseudo reflexivity: no unconditional `false`
     import re as _re
